@@ -12,10 +12,15 @@ from . import core
 _G = {}
 
 
-def _init(srv, cli, rundir):
+def _init(srv, cli, rundir, memcheck_=False):
     _G["srv"] = srv
     _G["cli"] = cli
     _G["rundir"] = rundir
+    _G["memcheck"] = bool(memcheck_)
+
+
+def memcheck():
+    return bool(_G.get("memcheck"))
 
 
 def binaries():
@@ -38,7 +43,7 @@ def _call(args):
     return params, r
 
 
-def run_scenarios(res, build, fn, params_list, jobs=16, chunksize=None, chunk_timeout=1500):
+def run_scenarios(res, build, fn, params_list, jobs=16, chunksize=None, chunk_timeout=1500, memcheck_=False):
     """Runs fn over params_list in forked worker processes (one per chunk, at most `jobs` at a time)
     and folds the results into res.  Plain fork + result files: no shared locks, a dying or hanging
     worker costs only its chunk (reported, never silently dropped)."""
@@ -46,7 +51,7 @@ def run_scenarios(res, build, fn, params_list, jobs=16, chunksize=None, chunk_ti
     import signal
     import time
     srv, cli = build.sim_binaries()
-    _init(srv, cli, build.run)
+    _init(srv, cli, build.run, memcheck_)
     n = len(params_list)
     if chunksize is None:
         chunksize = max(1, min(8, n // (jobs * 3) or 1))
